@@ -15,6 +15,28 @@ pub fn prng_bytes(seed: u64, n: usize) -> Vec<u8> {
     out
 }
 
+/// a copy of `d` that starts `k = (len + d[0]) % 16` bytes after a 64-byte boundary (k = 0 for empty data): input handed to the
+/// library must not have to be aligned, and block functions that read the caller's memory in place see every alignment
+pub struct Skewed {
+    buf: Vec<u8>,
+    off: usize,
+    len: usize,
+}
+impl std::ops::Deref for Skewed {
+    type Target = [u8];
+    fn deref(&self) -> &[u8] {
+        &self.buf[self.off..self.off + self.len]
+    }
+}
+pub fn skew(d: &[u8]) -> Skewed {
+    let k = if d.is_empty() { 0 } else { (d.len() + d[0] as usize) % 16 };
+    let mut buf = vec![0xc3u8; d.len() + 64 + 16];
+    let pad = (64 - (buf.as_ptr() as usize) % 64) % 64;
+    let off = pad + k;
+    buf[off..off + d.len()].copy_from_slice(d);
+    Skewed { buf, off, len: d.len() }
+}
+
 pub fn expand(spec: &str) -> Vec<u8> {
     if spec == "-" {
         return vec![];
